@@ -309,28 +309,34 @@ def uniform_queue(U, rep):
   q = make_queue(I, 'UniformSamplingQueue', cap, batch)
   key = symarr('key', (2,))
   st = safe_call(I, q, 'init', [key])
-  recs = [sym('r%d' % i) for i in range(3)]
+  recs = [sym('r0'), Rat.lift(float('inf')), sym('r2')]          # a held record may be non-finite
   st = safe_call(I, q, 'insert', [st, {'a': np.array([[r] for r in recs], dtype=object)}])
-  # evaluate sample_internal with an index oracle: randint returns symbolic indices; intercept take
+  # (a) WHICH indices: the call to randint is replaced by an oracle that records its arguments
   ks = I.extern('jax.random.split', [st.f['key']], {})
-  seen = {}
-  orig = avn.JNP['take']
-  def spy_take(x, i, axis=None, mode=None):
-    seen['idx'] = i
-    seen['mode'] = mode
-    seen['src'] = x
-    return np.array([[uf('gather', asarr(j))] for j in asarr(i).ravel()], dtype=object)
-  avn.JNP['take'] = spy_take
+  calls = []
+
+  def oracle(key_, shape=(), minval=None, maxval=None, *a_, **k_):
+    calls.append((key_, shape, minval, maxval))
+    return np.array([2, 0, 1], dtype=object)[:batch]
+  I.extern_overrides = {'jax.random.randint': oracle}
   try:
     st2, out = I.apply(I.attr(q, 'sample_internal'), [st], {})
   finally:
-    avn.JNP['take'] = orig
-  want_idx = [I.extern('jax.random.randint', [ks[1], (batch,)], {'minval': st.f['sample_position'], 'maxval': st.f['insert_position']}),
-              I.extern('jax.random.randint', [ks[1], (batch,)], {'minval': 0, 'maxval': st.f['insert_position']})]
-  ok = 'idx' in seen and any(same(seen['idx'], w) for w in want_idx) and seen['src'] is st.f['data']
+    I.extern_overrides = {}
+  ok = len(calls) == 1 and same(calls[0][0], ks[1]) and tuple(np.ravel(calls[0][1])) == (batch,) and same(calls[0][3], st.f['insert_position']) \
+      and (same(calls[0][2], st.f['sample_position']) or same(calls[0][2], 0))
   rep.check(ok, 'R17.5', 'UniformSamplingQueue draws indices in [sample_position|0, insert_position) from the split key',
             'uniform sampling does not draw `randint(sub_key, (batch,), minval, maxval=insert_position)` over the held region',
-            where=f.where(), construct='idx = randint(split(key)[1], (B,), minval, maxval=insert_position); take(data, idx)')
+            where=f.where(), construct='idx = randint(split(key)[1], (B,), minval, maxval=insert_position)')
+  # (b) WHAT is returned for those indices: exactly the held records data[idx] -- also when a held record is not finite
+  # (a gather written as a product with a 0/1 mask turns an inf anywhere in the buffer into nan everywhere: 0 * inf)
+  got = asarr(out['a'] if isinstance(out, dict) else out).ravel()
+  want = [recs[2], recs[0], recs[1]][:batch]
+  rep.check(len(got) == len(want) and all(Rat.lift(g).same(w) for g, w in zip(got, want)), 'R17.5',
+            'UniformSamplingQueue returns exactly the held records at the drawn indices (one of them is inf)',
+            lambda: 'for the drawn indices (2, 0, 1) the uniform queue returns %s, the held records are %s' % (
+                [repr(Rat.lift(g))[:30] for g in got], [repr(Rat.lift(w))[:30] for w in want]), where=f.where(),
+            construct='records r0, +inf, r2 held; sample == data[idx]')
   rep.check(same(st2.f['key'], ks[0]) and same(st2.f['insert_position'], st.f['insert_position'])
             and same(st2.f['sample_position'], st.f['sample_position']), 'R17.5',
             'UniformSamplingQueue stores the other half of the split key and keeps the cursors',
